@@ -100,8 +100,60 @@ def buffer_end_locals(fn):
     return out
 
 
-def remaining_fact(fs, ends, ptr_canon, need_const=None, need_canon=None, minus=0):
-    """A live fact `(end - ptr) [- minus] >= need`."""
+def remaining_counters(fn, ends, ptr_canon, before_id=None):
+    """Locals R kept equal to (end - ptr): initialised as `end - ptr` and decreased by k in the
+    same block right after/before every `ptr += k` (no other writes to R or ptr)."""
+    out = set()
+    defs = local_defs(fn)
+    cfg = fn.cfg
+    for d, es in defs.items():
+        init = None
+        for e in es:
+            x = strip_all_casts(e)
+            if x.get("k") == "bin" and x.get("op") == "-" and strip_all_casts(x["l"]).get("decl") in ends and canon(strip_all_casts(x["r"])) == ptr_canon:
+                init = e
+        if init is None:
+            continue
+        ok = True
+        pm = [x for x in fn.nodes() if x.get("k") in ("cassign", "assign") and strip_all_casts(x["l"]).get("decl") == ptr_canon] + \
+             [x for x in fn.nodes() if x.get("k") == "un" and x.get("op") in ("pre++", "post++", "pre--", "post--") and strip_all_casts(x["e"]).get("decl") == ptr_canon]
+        rm = [x for x in fn.nodes() if x.get("k") in ("cassign", "assign") and strip_all_casts(x["l"]).get("decl") == d]
+        if before_id is not None:
+            # updates that follow the access (in source order) do not matter for it
+            pm = [x for x in pm if x["id"] < before_id]
+            rm = [x for x in rm if x["id"] < before_id]
+        if len(pm) != len(rm):
+            continue
+        for a, b in zip(sorted(pm, key=lambda n: n["id"]), sorted(rm, key=lambda n: n["id"])):
+            if a.get("k") != "cassign" or b.get("k") != "cassign" or a.get("op") != "+" or b.get("op") != "-" or \
+                    canon(strip_all_casts(a["r"])) != canon(strip_all_casts(b["r"])) or cfg.block_for(a) != cfg.block_for(b):
+                ok = False
+                break
+            # nothing reads through the pointer between the two updates
+            lo, hi = sorted((cfg.pos_of[a["id"]], cfg.pos_of[b["id"]]))
+            blk = cfg.blocks[cfg.block_for(a)]
+            for e in blk.get("el", [])[lo + 1:hi]:
+                n = fn.node(e)
+                if n is not None and n.get("k") in ("un", "construct", "call") and ptr_canon in reads(n) and n["id"] not in (a["id"], b["id"]) and \
+                        not any(y["id"] in (a["id"], b["id"]) for y in walk(n)) and not any(n["id"] == y["id"] for z in (a, b) for y in walk(z)):
+                    ok = False
+        if ok:
+            out.add(d)
+    return out
+
+
+def remaining_fact(fs, ends, ptr_canon, need_const=None, need_canon=None, minus=0, fn=None, at_id=None):
+    """A live fact `(end - ptr) [- minus] >= need` (also through a local kept equal to end - ptr)."""
+    rc = remaining_counters(fn, ends, ptr_canon, at_id) if fn is not None else set()
+    for a in fs:
+        if a[0] == "cmp" and rc:
+            for x, y, op in ((a[4], a[5], a[2]), (a[5], a[4], facts._flip_op(a[2]))):
+                if op in (">=", ">") and strip_all_casts(x).get("decl") in rc and minus == 0:
+                    yv = const_value(y)
+                    if need_const is not None and yv is not None and yv + (1 if op == ">" else 0) >= need_const:
+                        return a
+                    if need_canon is not None and canon(strip_all_casts(y)) == need_canon:
+                        return a
     for a in fs:
         if a[0] != "cmp":
             continue
@@ -346,12 +398,12 @@ def check_walker(res, fb, f, cls, hsize, K):
         pc = canon(ptr)
         key = "%s::%s:%s@%s" % (cls, f.name.split("::")[-1], kind, pc[:30])
         if kind == "deref":
-            ok = remaining_fact(fs, ends, pc, need_const=width)
+            ok = remaining_fact(fs, ends, pc, need_const=width, fn=f, at_id=x["id"])
             res.check(ok is not None, "C03-R2c", key, x.get("loc"), "dereference of %d bytes guarded by (end - ptr) >= %d" % (width, width),
                       "%s::%s reads %d bytes at a position taken from the payload (`%s`) without comparing the remaining bytes with the end of the "
                       "payload: a payload accepted by isValidPayload (>= %d bytes) can make it read beyond its buffer" % (cls, f.name.split("::")[-1], width, pc, K))
         else:
-            ok = remaining_fact(fs, ends, pc, need_canon=canon(lenexpr))
+            ok = remaining_fact(fs, ends, pc, need_canon=canon(lenexpr), fn=f, at_id=x["id"])
             res.check(ok is not None, "C03-R2c", key, x.get("loc"), "view of `%s` bytes guarded by (end - ptr) >= %s" % (canon(lenexpr), canon(lenexpr)),
                       "%s::%s hands out a view of `%s` bytes at `%s` without comparing that length with the remaining bytes of the payload" %
                       (cls, f.name.split("::")[-1], canon(lenexpr), pc))
